@@ -14,6 +14,8 @@ import (
 	"github.com/gorilla/websocket"
 	"github.com/jpillora/backoff"
 	"github.com/practable/relay/internal/reconws"
+	"github.com/practable/relay/pkg/client"
+	"github.com/practable/relay/pkg/status"
 )
 
 // ---------------------------------------------------------------- network hooks
@@ -169,7 +171,8 @@ type run struct {
 	resume     chan struct{}
 	busyStop   chan struct{} // non-nil while the busy sender runs
 	stayArmed  bool
-	sentAt     []time.Time // long-lived connection: when numbered message n was handed to r.Out
+	garbled    []int
+	sentAt     []time.Time // long-lived connection: when numbered message n was handed to r.Out (pkg/status run: sent by the server)
 	echoSeq    []int
 }
 
@@ -353,6 +356,49 @@ func (r *run) serveStay(c *websocket.Conn, a *attempt) {
 			case <-r.finished:
 			}
 		}()
+	}
+	if r.c.Via == "status" {
+		// pkg/status has no sending side: the server pushes numbered reports, every fifth one undecodable
+		gone := make(chan struct{})
+		go func() {
+			for {
+				if _, _, err := c.ReadMessage(); err != nil {
+					r.mu.Lock()
+					if !r.cancelAt.IsZero() && r.connClosed.IsZero() {
+						r.connClosed = time.Now()
+					}
+					r.mu.Unlock()
+					close(gone)
+					return
+				}
+			}
+		}()
+		for {
+			r.mu.Lock()
+			n := len(r.sentAt)
+			r.mu.Unlock()
+			payload := fmt.Sprintf(`[{"topic":"e:%d","canRead":true,"scopes":["read"]}]`, n)
+			if n%5 == 4 {
+				payload = []string{"this is not json", `{"topic":"an object, not a list"}`}[(n/5)%2]
+			}
+			if err := c.WriteMessage(websocket.TextMessage, []byte(payload)); err != nil {
+				return
+			}
+			r.mu.Lock()
+			r.sentAt = append(r.sentAt, time.Now())
+			if n%5 == 4 {
+				r.garbled = append(r.garbled, n)
+			}
+			a.k = len(r.sentAt)
+			r.mu.Unlock()
+			select {
+			case <-time.After(300 * time.Millisecond):
+			case <-gone:
+				return
+			case <-r.finished:
+				return
+			}
+		}
 	}
 	for {
 		_ = c.SetReadDeadline(time.Now().Add(time.Duration(r.c.Stay) + 10*time.Second))
@@ -588,13 +634,69 @@ func runLoop(c *Case) {
 	ctx, cancel := context.WithCancel(context.Background())
 	r.cancel = cancel
 	r.rc = rc
+	inCh, outCh := rc.In, rc.Out
+	var cl *client.Client
+	var stw *status.Status
+	if c.Via == "status" {
+		stw = status.New()
+		inCh, outCh = make(chan reconws.WsMessage), make(chan reconws.WsMessage) // nothing can be sent through pkg/status
+		go func() {
+			for {
+				select {
+				case reps := <-stw.Status:
+					for _, rep := range reps {
+						select {
+						case inCh <- reconws.WsMessage{Data: []byte(rep.Topic), Type: websocket.TextMessage}:
+						case <-r.finished:
+							return
+						}
+					}
+				case <-r.finished:
+					return
+				}
+			}
+		}()
+	}
+	if c.Via == "client" {
+		// the public wrapper: Send -> (forwarder) -> r.Out and r.In -> (forwarder) -> Receive, ReconnectAuth inside
+		cl = client.New()
+		inCh, outCh = make(chan reconws.WsMessage), make(chan reconws.WsMessage)
+		go func() {
+			for {
+				select {
+				case m := <-cl.Receive:
+					select {
+					case inCh <- reconws.WsMessage{Data: m.Content, Type: m.Type}:
+					case <-r.finished:
+						return
+					}
+				case <-r.finished:
+					return
+				}
+			}
+		}()
+		go func() {
+			for {
+				select {
+				case m := <-outCh:
+					select {
+					case cl.Send <- client.Message{Content: m.Data, Type: m.Type}:
+					case <-r.finished:
+						return
+					}
+				case <-r.finished:
+					return
+				}
+			}
+		}()
+	}
 
 	// the user of the client: acknowledge every message that arrives on In, in order, on Out
 	acks := make(chan string, 4096)
 	go func() {
 		for {
 			select {
-			case m := <-rc.In:
+			case m := <-inCh:
 				parts := strings.Split(string(m.Data), ":")
 				if len(parts) == 2 && parts[0] == "e" {
 					n, _ := strconv.Atoi(parts[1])
@@ -638,7 +740,7 @@ func runLoop(c *Case) {
 				}
 				n++
 				select {
-				case rc.Out <- reconws.WsMessage{Type: mt, Data: []byte(s)}:
+				case outCh <- reconws.WsMessage{Type: mt, Data: []byte(s)}:
 				case <-r.finished:
 					return
 				}
@@ -648,7 +750,7 @@ func runLoop(c *Case) {
 		}
 	}()
 
-	if c.Stay > 0 { // the user of a long-lived connection: a numbered message every ~300 ms
+	if c.Stay > 0 && c.Via != "status" { // the user of a long-lived connection: a numbered message every ~300 ms
 		go func() {
 			for n := 0; ; n++ {
 				mt := websocket.TextMessage
@@ -656,7 +758,7 @@ func runLoop(c *Case) {
 					mt = websocket.BinaryMessage
 				}
 				select {
-				case rc.Out <- reconws.WsMessage{Type: mt, Data: []byte(fmt.Sprintf("e:%d", n))}:
+				case outCh <- reconws.WsMessage{Type: mt, Data: []byte(fmt.Sprintf("e:%d", n))}:
 					r.mu.Lock()
 					r.sentAt = append(r.sentAt, time.Now())
 					r.mu.Unlock()
@@ -676,7 +778,11 @@ func runLoop(c *Case) {
 	var returnedAt time.Time
 	r.launch = time.Now()
 	go func() {
-		if c.Loop == "auth" {
+		if stw != nil {
+			stw.Connect(ctx, fmt.Sprintf("http://127.0.0.1:%d/session/x", pa), "token")
+		} else if cl != nil {
+			cl.Connect(ctx, fmt.Sprintf("http://127.0.0.1:%d/session/x", pa), "token")
+		} else if c.Loop == "auth" {
 			rc.ReconnectAuth(ctx, fmt.Sprintf("http://127.0.0.1:%d/session/x", pa), "token")
 		} else {
 			rc.Reconnect(ctx, r.wsURL)
@@ -716,7 +822,11 @@ WAIT:
 		}
 	}
 	// quiet period: anything the client still does now is after the cancellation
-	time.Sleep(time.Duration(c.Max) + 150*time.Millisecond)
+	quiet := time.Duration(c.Max)
+	if quiet > 850*time.Millisecond {
+		quiet = 850 * time.Millisecond
+	}
+	time.Sleep(quiet + 150*time.Millisecond)
 	r.doCancel(true)
 	close(r.finished)
 
@@ -735,8 +845,16 @@ WAIT:
 	c.Returned = didReturn
 	c.Obs = nil
 	prevStart, prevEnd := r.launch, r.launch
+	stayEchoGiven := false
 	for _, a := range r.attempts {
 		o := Obs{GapSS: int64(a.start.Sub(prevStart)), GapES: int64(a.start.Sub(prevEnd)), Acc: a.acc, Ws: a.ws, Est: a.est, K: a.k}
+		o.In = append([]int{}, a.inSeq...)
+		o.Ack = append([]int{}, a.ackSeq...)
+		if a.est && r.step(a.idx).W == "acceptstay" && !stayEchoGiven {
+			o.In = append([]int{}, r.echoSeq...) // the echoes of the long-lived connection
+			o.Garbled = append([]int{}, r.garbled...)
+			stayEchoGiven = true
+		}
 		if a.idx == c.Cancel.I && !r.cancelAt.IsZero() && !r.connClosed.IsZero() && r.connClosed.Sub(r.cancelAt) <= time.Second {
 			o.Closed = true
 		}
@@ -758,11 +876,12 @@ WAIT:
 		tr.SentAt = append(tr.SentAt, rel(t))
 	}
 	tr.EchoSeq = append([]int{}, r.echoSeq...)
+	tr.Garbled = append([]int{}, r.garbled...)
 	c.Trace = tr
 }
 
 func runBoff(c *Case) {
-	b := &backoff.Backoff{Min: time.Duration(c.Min), Max: time.Duration(c.Max), Factor: float64(c.Factor), Jitter: false}
+	b := &backoff.Backoff{Min: time.Duration(c.Min), Max: time.Duration(c.Max), Factor: float64(c.Factor), Jitter: c.Kind == "boffj"}
 	c.Ds = nil
 	for _, o := range c.Ops {
 		if o == 1 {
@@ -787,7 +906,7 @@ func runAll(cases []Case, out *childOut) {
 	}
 	for _, i := range order {
 		c := &cases[i]
-		if c.Kind == "boff" {
+		if c.Kind == "boff" || c.Kind == "boffj" {
 			runBoff(c)
 			continue
 		}
